@@ -555,6 +555,10 @@ class C14(Check):
         for op in self.alphabet():
             if op[0] == "genotype" and len(ops) >= 2:
                 continue
+            if n_extra >= 1 and op[0] == "acc" and not (op[1] in ("Gene", "Gene@D", "Coverage") and op[2] in
+                                                        ("has_coverage", "region_at", "get_functional", "total", "coverage", "filtered")):
+                continue      # second operation beyond the prefix: the reduced alphabet (stage calls, writers, queries,
+                              # genotype runs and the accessors that consult structure-dependent tables)
             yield (str(op), ("hist", ops + (op,)))
 
     def describe(self, st):
